@@ -58,6 +58,17 @@ type Contract struct {
 	RecFuns  []*Pred
 }
 
+// ImmutableDecl: fields of a struct type that are written only by the listed
+// initialising functions; everywhere else they are constants (checked syntactically).
+type ImmutableDecl struct {
+	Pkg    string
+	Type   string
+	Fields []string
+	Init   []string
+	File   string
+	Line   int
+}
+
 type Pred struct {
 	Name   string
 	Params []string
@@ -71,6 +82,7 @@ type SpecSet struct {
 	Ghosts    map[string]*GhostDecl
 	Globals   []*Clause // global facts (assumed at function entry, checked nowhere: trusted)
 	Preds     map[string]*Pred
+	Immutable []*ImmutableDecl
 	Errors    []string
 }
 
@@ -210,6 +222,27 @@ func (ss *SpecSet) parseFile(path string, trusted bool, pkgName string) {
 			curPred = pr
 			pending = &strings.Builder{}
 			pending.WriteString(m[3])
+			continue
+		case "immutable":
+			finish()
+			// immutable Type f1 f2 ... init Func1 Func2 ...
+			d := &ImmutableDecl{Pkg: pkgName, File: path, Line: lineNo}
+			if len(fields) >= 2 {
+				d.Type = fields[1]
+			}
+			inInit := false
+			for _, f := range fields[2:] {
+				if f == "init" {
+					inInit = true
+					continue
+				}
+				if inInit {
+					d.Init = append(d.Init, f)
+				} else {
+					d.Fields = append(d.Fields, f)
+				}
+			}
+			ss.Immutable = append(ss.Immutable, d)
 			continue
 		case "global":
 			finish()
